@@ -24,7 +24,12 @@ class C18(Check):
             "whatever fits must be signed and verify. Concurrency: 24 goroutines (four per key) sign, verify and verify an "
             "altered copy of their own message 30..1200 times at once; each result against the same call made alone (equal "
             "octets, equal signature for RSA/Ed25519, signer handed exactly the digest of RDATA | message, crypto/* check, "
-            "Verify ok, altered rejected) - no oracle depends on time or schedule. Model cases: sign (key-field errors, unknown algorithm, compression on/off) and verify (valid, "
+            "Verify ok, altered rejected) - no oracle depends on time or schedule. KEY objects changing between calls (same "
+            "object re-generated, PublicKey / owner / algorithm replaced and restored, two objects with equal tag, owner, "
+            "algorithm used alternately and exchanged): Verify judged by what the KEY holds at the call. Window with "
+            "inception/expiration at now-1, now, now+1 for every key and all pairs over 0, 1, 2^31-1, 2^31, 2^32-1, now+-1: "
+            "clock read around the call, judged when both readings agree, repeated until the call ran in the second the "
+            "window was built from. Model cases: sign (key-field errors, unknown algorithm, compression on/off) and verify (valid, "
             "bit flips steering the counts and offsets, truncations, malformed buffers, mismatched caller SIG); messages above 3000 octets as run-length recipes both sides expand (signbig/verifybig, "
             "long octet strings compared by length.sum.sum-of-prefix-sums); the last result of each goroutine. Non-trivial: "
             "input longer than a header; distinct by hash of (function, arguments, output).")
